@@ -1,12 +1,14 @@
 package main
 
 import (
+	"fmt"
 	"bytes"
 	"encoding/json"
 	"math/rand"
 	"os"
 	"path/filepath"
 	"strings"
+	"time"
 
 	"tags.cncf.io/container-device-interface/pkg/cdi"
 	"tags.cncf.io/container-device-interface/schema"
@@ -130,6 +132,13 @@ func (schemaStream) Generate(rng *rand.Rand, tier string, emit func(Case)) {
 		s := genTypedSpec(rng)
 		emit(Case{"op": "typed", "spec": specToProto(s)})
 	}
+	// a library-valid Spec whose files are larger than a megabyte (every annotation map within its own limit)
+	bigSpec := &specs.Spec{Version: specs.CurrentVersion, Kind: "vendor.com/class"}
+	for i := 0; i < 6; i++ {
+		bigSpec.Devices = append(bigSpec.Devices, specs.Device{Name: fmt.Sprintf("dev%d", i), Annotations: map[string]string{"big": strings.Repeat("a", 200*1024)},
+			ContainerEdits: specs.ContainerEdits{Env: []string{"A=b"}}})
+	}
+	emit(Case{"op": "typed", "spec": specToProto(bigSpec)})
 	// every kind of defect the library rejects, as a typed Spec: what the library admits must pass the schema
 	// whatever the reason it was admitted for
 	for _, kind := range mutationKinds {
@@ -196,6 +205,7 @@ func verdictOf(f func() error) (v string) {
 }
 
 var loadedSchema *schema.Schema
+var validatorHung bool
 
 func (schemaStream) Execute(c Case) {
 	obs := map[string]any{}
@@ -237,6 +247,19 @@ func (schemaStream) Execute(c Case) {
 			o["readAndValidate"] = verdictOf(func() error { _, err := s.ReadAndValidate(bytes.NewReader(jsonText)); return err })
 			obs[name] = o
 		}
+		// the same through the package-level functions, each schema being made the active one first
+		for name, s := range map[string]*schema.Schema{"active-builtin": schema.BuiltinSchema(), "active-none": none, "active-nil": nil} {
+			schema.Set(s)
+			o := map[string]any{}
+			o["dataJson"] = verdictOf(func() error { return schema.ValidateData(jsonText) })
+			o["dataYaml"] = verdictOf(func() error { return schema.ValidateData(yamlText) })
+			o["fileJson"] = verdictOf(func() error { return schema.ValidateFile(pj) })
+			o["fileYaml"] = verdictOf(func() error { return schema.ValidateFile(py) })
+			o["reader"] = verdictOf(func() error { return schema.ValidateReader(bytes.NewReader(jsonText)) })
+			o["readAndValidate"] = verdictOf(func() error { _, err := schema.ReadAndValidate(bytes.NewReader(jsonText)); return err })
+			obs[name] = o
+		}
+		schema.Set(schema.BuiltinSchema())
 	case "typed":
 		s := protoToSpec(c["spec"])
 		for _, k := range []string{"typed", "fileJson", "fileYaml", "readWithValidator", "writeWithValidator"} {
@@ -249,6 +272,9 @@ func (schemaStream) Execute(c Case) {
 			s.Devices = nil // the protocol does not distinguish an empty from a nil list; the model takes nil
 		}
 		b := schema.BuiltinSchema()
+		if validatorHung {
+			return // the validator lock is gone for good in this process
+		}
 		obs["typed"] = verdictOf(func() error { return b.Validate(s) })
 		// files the library writes for it
 		dir := filepath.Join(schemaRoot, "w")
@@ -258,10 +284,22 @@ func (schemaStream) Execute(c Case) {
 			obs["libaccepts"] = true
 			obs["fileJson"] = verdictOf(func() error { return b.ValidateFile(filepath.Join(dir, "out.json")) })
 			obs["fileYaml"] = verdictOf(func() error { return b.ValidateFile(filepath.Join(dir, "out.yaml")) })
-			cdi.SetSpecValidator(b)
-			obs["readWithValidator"] = verdictOf(func() error { _, err := cdi.ReadSpec(filepath.Join(dir, "out.yaml"), 0); return err })
-			obs["writeWithValidator"] = verdictOf(func() error { return cache.WriteSpec(s, "again.json") })
-			cdi.SetSpecValidator(nil)
+			// installing, using and removing a validator, under a deadline (a leaked lock must not hang the stream)
+			doneV := make(chan struct{})
+			go func() {
+				defer close(doneV)
+				cdi.SetSpecValidator(b)
+				obs["readWithValidator"] = verdictOf(func() error { _, err := cdi.ReadSpec(filepath.Join(dir, "out.yaml"), 0); return err })
+				obs["writeWithValidator"] = verdictOf(func() error { return cache.WriteSpec(s, "again.json") })
+				cdi.SetSpecValidator(nil)
+			}()
+			select {
+			case <-doneV:
+			case <-time.After(20 * time.Second):
+				obs["typed"] = "panic" // reported by the judge as a crash-class failure: the validator calls never returned
+				note("validator install/use/remove did not return within 20 s")
+				validatorHung = true
+			}
 		}
 	}
 }
